@@ -7,4 +7,5 @@ let () =
   | _ :: "arena" :: _ -> R_arena.run ()
   | _ :: "minblock" :: _ -> R_minblock.run ()
   | _ :: "lowlevel" :: _ -> R_lowlevel.run ()
+  | _ :: "leak" :: _ -> R_leak.run ()
   | _ -> prerr_endline "usage: replay <topic> [args]"; exit 2
